@@ -212,6 +212,8 @@ class Acc:
         self.per_group = {}
         self.durations = {}   # group -> wall seconds of completed chunks (adaptive watchdog)
         self.hangs = {}       # group -> confirmed hangs (watchdog expired twice)
+        self.slow = {}        # group -> watchdog expiries whose case finished when re-run alone
+        self.slow_msgs = []
 
 
 def parse_journal(path):
@@ -343,6 +345,16 @@ def run_chunk(exe, base_args, group, lo, hi, timeout, workdir, acc, tag):
     declared = timeout
     while start < hi:
         with acc.lock:
+            if acc.hangs.get(group, 0) < 2 and acc.slow.get(group, 0) >= 4:
+                # the watchdog fired four times in this group although every case finished when re-run alone:
+                # the group is far slower than its budget assumes (loaded machine, or a change that makes cases
+                # explode); stop it - without any violation the run is then reported inconclusive, never held
+                n = hi - start
+                acc.tally["cases-not-run-after-four-watchdog-expiries-in-group"] = acc.tally.get("cases-not-run-after-four-watchdog-expiries-in-group", 0) + n
+                msg = "group %s stopped after four watchdog expiries whose cases all finished when re-run alone" % group
+                if msg not in acc.slow_msgs:
+                    acc.slow_msgs.append(msg)
+                return
             if acc.hangs.get(group, 0) >= 2:
                 # two confirmed hangs already establish the violation: do not spend hours re-finding it
                 acc.tally["cases-not-run-after-two-confirmed-hangs-in-group"] = acc.tally.get("cases-not-run-after-two-confirmed-hangs-in-group", 0) + (hi - start)
@@ -416,6 +428,7 @@ def run_chunk(exe, base_args, group, lo, hi, timeout, workdir, acc, tag):
             else:
                 # completed (or died) alone: take what the lone run says
                 with acc.lock:
+                    acc.slow[group] = acc.slow.get(group, 0) + 1
                     acc.restarts += 1
                     for k, v in clause2.items():
                         acc.clause[k] = acc.clause.get(k, 0) + v
@@ -578,6 +591,7 @@ def check(pid, tier, seed, only_group=None):
             futs.append(ex.submit(run_chunk, exe, base_args, g["name"], lo, hi, min(g["timeout"], cap), workdir, acc, "t%d" % i))
         for f in futs:
             f.result()
+    acc.inconclusive += acc.slow_msgs
     extra_cov = {}
     if extra_mod is not None:
         ctx = dict(pid=pid, tier=tier, seed=seed, variant_dir=d, workdir=workdir, acc=acc, repo=REPO, verif=VERIF,
